@@ -269,7 +269,7 @@ fn main() {
     let s2 = strings(2);
     let s1 = strings(1);
     rep.rule = format!(
-        "strings of length 0..=3 over the character pool {:?}: every string as metric name through 12 constructors; all (namespace|subsystem, name) pairs of strings of length<=2 (quick: namespace/subsystem length<=1); every string (len<=3) as constant and as variable label name; every assignment of <=2 constant and <=2 variable label names from {{a,b,le}} for all 12 constructors; help in {{\"\",h}}; Registry::new_custom with every string (len<=3) as prefix, every string (len<=2) as common-label name, and common labels from {{a,b,le}} against metrics using the same names. Every accepted metric is registered, sampled and gathered; gathered names are validated. distinct = distinct (part, constructor, accept/reject, outcome) classes",
+        "strings of length 0..=3 (thorough: 4 for three representative constructors) over the character pool {:?}: every string as metric name through 12 constructors; all (namespace|subsystem, name) pairs of strings of length<=2 (quick: namespace/subsystem length<=1); every string (len<=3) as constant and as variable label name; every assignment of <=2 constant and <=2 variable label names from {{a,b,le}} for all 12 constructors; help in {{\"\",h}}; Registry::new_custom with every string (len<=3) as prefix, every string (len<=2) as common-label name, and common labels from {{a,b,le}} against metrics using the same names. Every accepted metric is registered, sampled and gathered; gathered names are validated. distinct = distinct (part, constructor, accept/reject, outcome) classes",
         CHARS
     );
     rep.bounds = json!({"chars": CHARS.iter().map(|c| c.to_string()).collect::<Vec<_>>(), "name_len": 3, "pair_len": if thorough {2} else {1}, "label_names": ["a","b","le"]});
@@ -283,6 +283,29 @@ fn main() {
                 spec.vars = vec!["l".into()];
             }
             run.ctor(c, &spec, "name");
+        }
+    }
+    // thorough: strings of length 4 in the name and label-name positions of three representative constructors
+    if thorough {
+        for s in strings(4).iter().filter(|s| s.chars().count() == 4) {
+            for &c in &[Ctor::Counter, Ctor::HistogramVec, Ctor::Desc] {
+                let mut spec = sp(s);
+                if c.is_vec() {
+                    spec.vars = vec!["l".into()];
+                }
+                run.ctor(c, &spec, "name4");
+                let mut spec = sp("m");
+                spec.consts = vec![(s.clone(), "v".into())];
+                if c.is_vec() {
+                    spec.vars = vec!["l".into()];
+                }
+                run.ctor(c, &spec, "const-label4");
+                if c != Ctor::Counter {
+                    let mut spec = sp("m");
+                    spec.vars = vec![s.clone()];
+                    run.ctor(c, &spec, "var-label4");
+                }
+            }
         }
     }
     // help
